@@ -1,6 +1,8 @@
-"""C34 — the identity map holds at most one object per row: the _WeakInstanceDict container under proof."""
+"""C34 — the identity map holds at most one object per row: the _WeakInstanceDict container and the hand-over of a released
+SAVEPOINT's bookkeeping (new / dirty / deleted / primary-key switches) to the enclosing transaction under proof."""
 import importlib
 import contracts.identity  # noqa: F401
+import contracts.session_snapshot  # noqa: F401
 from pyvc.contract import FUNCS
 from vlib.proof import run_proofs
 from vlib.bounded import run_bounded
@@ -22,5 +24,6 @@ def run(run, tier, seed, args):
     run.assumptions += [
         "liveness of a weakly referenced object (state.obj() is None) does not change during one container call: the `except KeyError` GC-race arms are proved unreachable sequentially",
         "dictionary keys compare by value identity of the modelled key (identity keys are tuples of hashable values)",
+        "SessionTransaction._remove_snapshot: only the SAVEPOINT-release arm is under proof (precondition self.nested); _restore_snapshot (which uses the recorded key switches on rollback) is in the bounded complement",
         "outside the proof: loading._instance_processor lookup-before-create, Session.get's no-SQL path (bounded complement only), the database",
     ]
